@@ -1,2 +1,92 @@
+"""C02 part 2: small-argument expansions inside Phi (arguments of the dilogarithms)."""
+import math
+from fractions import Fraction as Fr
+import mpmath
+import z3
+
+from .common import *
+from .ffcommon import *
+
+QDRT_EPS = (10 * 2.220446049250313e-16) ** 0.25
+
+
+def mp_phi_pos(u, v):
+    """Phi(u,v) (Davydychev-Tausk / arXiv:1607.06292 (68)) for lambda^2 > 0, u,v <= 1, with the exact roots"""
+    mpmath.mp.dps = 60
+    u, v = mpmath.mpf(u), mpmath.mpf(v)
+    lam = mpmath.sqrt((1 - u - v) ** 2 - 4 * u * v)
+    X = (1 - lam + u - v) / 2
+    Y = (1 - lam - u + v) / 2
+    return (-mpmath.log(u) * mpmath.log(v) + 2 * mpmath.log(X) * mpmath.log(Y) - 2 * mp_li2(X) - 2 * mp_li2(Y)
+            + mpmath.pi ** 2 / 3) / lam
+
+
 def run(chk, mod, lib):
-    pass
+    fn = 'vx_phi_pos'
+    chk.functions.add('gm2calc::(anon)::phi_pos / luv / l00 / l0v / lv0')
+    u, v = z3.Real('u'), z3.Real('v')
+    L = z3.Real('lambda_exact')
+    exact = [L >= 0, L * L == (1 - u - v) * (1 - u - v) - 4 * u * v]
+    X = (1 - L + u - v) / 2
+    Y = (1 - L - u + v) / 2
+    nf = native_fn(lib, fn, 2)
+    for mode in ('equal', 'ordered'):
+        ex = executor(mod, RealDom(), ufs=LEAF_UFS)
+        if mode == 'equal':
+            args = [u, u]
+            dom = [u >= zr(Fr(1, 10 ** 6)), u <= zr(Fr(24, 100)), v == u]
+        else:
+            args = [u, v]
+            dom = [u >= zr(Fr(1, 10 ** 6)), v <= zr(Fr(98, 100)), u < v]
+        st = ex.start(fn, args)
+        st.pc += dom
+        # lambda^2 > 0 is the precondition of phi_pos
+        st.pc.append((1 - u - v) * (1 - u - v) - 4 * u * v > zr(Fr(1, 10 ** 6)))
+        paths = ex.explore(st)
+        chk.absorb_executor(ex)
+        for i, p in enumerate(paths):
+            tag = 'phi_pos:%s#%d' % (mode, i)
+            if p.outcome[0] != 'ret' or isinstance(p.retval, float):
+                chk.record(tag, 'inconclusive', 'abnormal path %r' % (p.outcome,))
+                chk.inconclusive.append(tag)
+                continue
+            li = [(a[0], r) for (k, a, r) in [ex.leaves[j] for j in p.leaves] if k == 'li2']
+            if not li:
+                continue
+            targets = [X] if len(li) == 1 else [X, Y]
+            if len(li) != len(targets):
+                chk.record(tag, 'inconclusive', '%d dilogarithm arguments on the path' % len(li))
+                chk.inconclusive.append(tag)
+                continue
+            tol = zr(Fr(1, 10 ** 7))
+
+            def close(a_, t_):
+                return z3.And(a_ - t_ <= tol * t_, t_ - a_ <= tol * t_)
+            if len(li) == 1:
+                good = close(li[0][0], X)
+            else:
+                # Phi is symmetric in the two roots: the pair may be returned in either order
+                good = z3.Or(z3.And(close(li[0][0], X), close(li[1][0], Y)),
+                             z3.And(close(li[0][0], Y), close(li[1][0], X)))
+            for nm in ('roots',):
+                r, m = chk.prove(tag + ':' + nm, p.pc + dom + exact + [z3.Not(good)], timeout_ms=60000,
+                                 family='phi-expansions',
+                                 sample={'obligation': 'Phi: the dilogarithm arguments computed on this path (series in '
+                                         'u,v or closed form) equal the roots (1 - lambda +- (u - v))/2 to 1e-7 relative '
+                                         'for all u,v of the regime'})
+                if r == 'sat':
+                    uf_, vf_ = float(m.real(u)), float(m.real(v) if mode == 'ordered' else m.real(u))
+                    got = nf(uf_, vf_)
+                    ref = mp_phi_pos(uf_, vf_)
+                    chk.traces_validated += 1
+                    err = abs(mpmath.mpf(got) - ref) / abs(ref)
+                    if err > 1e-6:
+                        chk.violation(tag, 'C02:Phi:small-argument-series',
+                                      'phi_pos(%r, %r) = %r but with exact roots the definition gives %s (rel. err %s)' % (
+                                          uf_, vf_, got, mpmath.nstr(ref, 15), mpmath.nstr(err, 3)),
+                                      '#!/bin/sh\ncd %s && exec python3-vt -m props.replay_phi %r %r\n' % (VERIF, uf_, vf_))
+                    else:
+                        # the series may be less accurate than 1e-10 without breaking 1e-6 on Phi: find the worst point
+                        chk.record(tag + ':' + nm, 'inconclusive', 'argument deviates at u=%g v=%g but Phi agrees to %s' % (
+                            uf_, vf_, mpmath.nstr(err, 3)))
+                        chk.inconclusive.append(tag + ':' + nm)
